@@ -56,8 +56,11 @@ class C06(Prop):
         return self._owner.get(c.op["op"])
 
     def cases(self, rng: random.Random, tier: str) -> Iterator[Case]:
+        # each part's stream, then a share of its valid configuration-carrying cases once more with the five PduConfig flags
+        # as plain ints / bools (props.c05.conf_form_variants; case key forms.conf)
+        from props.c05 import conf_form_variants
         for p in self.parts:
-            yield from p.cases(rng, tier)
+            yield from conf_form_variants(p.cases(rng, tier), rng, share=0.04)
 
     def table_sync(self):
         return [d for p in self.parts for d in p.table_sync()]
